@@ -152,11 +152,14 @@ def make_vector_potential(aspec, device, field_units):
             tmin=aspec.get("tmin", 0.0), tmax=aspec["tmax"], initial=aspec.get("initial", 0.0),
             final=aspec.get("final", 1.0))
     if k == "ramp_gauge":
-        return tdgl.Parameter(_uniform_A, B=float(aspec["B"]), ax=float(aspec.get("ax", 0.0)),
-                              ay=float(aspec.get("ay", 0.0)), x0=float(aspec.get("x0", 0.0)),
-                              y0=float(aspec.get("y0", 0.0))) * LinearRamp(
+        # ramped uniform field plus a *time-independent* constant shift (a pure gauge)
+        ramped = tdgl.Parameter(_uniform_A, B=float(aspec["B"]), x0=float(aspec.get("x0", 0.0)),
+                                y0=float(aspec.get("y0", 0.0))) * LinearRamp(
             tmin=aspec.get("tmin", 0.0), tmax=aspec["tmax"], initial=aspec.get("initial", 0.0),
             final=aspec.get("final", 1.0))
+        if aspec.get("ax") or aspec.get("ay"):
+            return ramped + tdgl.Parameter(_uniform_A, B=0.0, ax=float(aspec.get("ax", 0.0)), ay=float(aspec.get("ay", 0.0)))
+        return ramped
     raise ValueError(k)
 
 
@@ -237,6 +240,34 @@ def make_epsilon(espec):
 
         return epsilon_t
     raise ValueError(espec["kind"])
+
+
+class LibraryRefused(Exception):
+    """The library refused a valid-looking input for a documented or environmental reason that is
+    outside the property under test (the case is discarded and counted)."""
+
+
+def make_solver(device, options, **kw):
+    """TDGLSolver(...) with the one construction failure that is outside every listed property mapped
+    to LibraryRefused: SuperLU occasionally reports 'Factor is exactly singular' for the pure-Neumann
+    (singular by construction) Poisson matrix of some meshes."""
+    import tdgl
+
+    try:
+        return tdgl.TDGLSolver(device, options, **kw)
+    except RuntimeError as exc:
+        if "exactly singular" in str(exc):
+            raise LibraryRefused("SuperLU: Poisson matrix exactly singular") from exc
+        raise
+
+
+def make_device_or_refuse(dspec, **kw):
+    try:
+        return make_device(dspec, **kw)
+    except ValueError as exc:
+        if "Malformed Voronoi" in str(exc):
+            raise LibraryRefused("malformed Voronoi cell (documented refusal)") from exc
+        raise
 
 
 # ----------------------------------------------------------------------------- options
